@@ -4,7 +4,20 @@ COMMON_TRUST = [
     "correspondence harness (harness/, Rust) and the Lean driver's line protocol",
     "rustc dev-profile semantics of integer overflow and indexing",
 ]
+CODEC_RULE = "every message type x decoding parameter (Prio3 Count/Sum/Histogram/SumVec with 2-5 aggregators, Poplar1 with several bit lengths incl. 0, Prio2, ping-pong, primitives): honest encodings from real protocol runs, truncations, extensions, single-byte mutations, every alphabet value in first/last byte, all strings of length <= 2-3 over {00,01,7f,80,fe,ff}, header extremes (level 0xFFFF, counts 2^32-1, unknown tags), random strings; non-trivial = every case (each is a decode of a distinct byte string);"
 PROPS = {
+    "C07": {
+        "modules": ["PrioProofs.Props.C07"],
+        "rule": CODEC_RULE,
+        "trusted": COMMON_TRUST + ["the per-message format functions of lean/PrioModel/Messages.lean are hand-written from the Rust decoders; their agreement with the code is what the correspondence run checks"],
+        "assumptions": ["serde (de)serialisation of field elements is not part of the wire codec and is not covered"],
+    },
+    "C08": {
+        "modules": ["PrioProofs.Props.C08"],
+        "rule": CODEC_RULE,
+        "trusted": COMMON_TRUST + ["allocation and wall-clock bounds are measured on the real code by the harness (counting allocator, timer, watchdog); the model proves totality and panic-freedom only"],
+        "assumptions": [],
+    },
     "C09": {
         "modules": ["PrioProofs.Props.C09"],
         "rule": "operand lattice (0,1,2,3,p-3..p-1,(p±1)/2,2^k,2^k±1,limb masks,R mod p) x itself, random and low-weight operands, every operand pair of the 8-bit instantiation; non-trivial = all (every case exercises the limb code);",
